@@ -182,5 +182,20 @@ def _reset():
                 del d[k]
 
 
+def overfill_path_cache():
+    """Path._CACHE in the 'more than _MAX_CACHE distinct strings seen' state, constructed directly."""
+    def fill():
+        for star in list(gc.Path._CACHE):
+            cache = gc.Path._CACHE[star]
+            for n in range(gc.Path._MAX_CACHE + 2):
+                cache['dummy.%d' % n] = None
+    if IN_ENGINE:
+        from crosshair.tracers import NoTracing, is_tracing
+        if is_tracing():
+            with NoTracing():
+                return fill()
+    return fill()
+
+
 if IN_ENGINE:
     apply_engine_stubs(real_traceback=REAL_TRACEBACK)
